@@ -2,6 +2,7 @@ package main
 
 import (
 	"context"
+	"encoding/hex"
 	"errors"
 	"fmt"
 	"math"
@@ -569,6 +570,29 @@ func c16Lists(c *Ctx) {
 			}
 			toks = append(toks, ")")
 			return strings.Join(toks, " "), secs2.NewListItem(kids...)
+		}
+	}
+	// a list owns its children: the caller reusing the slice it passed to L(kids...) for an errored item afterwards must
+	// not smuggle that item under a list whose Error() was computed at construction (after seeded change C16g-2)
+	for n := 2; n <= 5; n++ {
+		kids := make([]secs2.Item, n)
+		for i := range kids {
+			kids[i] = secs2.A(fmt.Sprint("k", i))
+		}
+		list := secs2.NewListItem(kids...)
+		before := hex.EncodeToString(list.ToBytes())
+		kids[n-1] = secs2.NewUintItem(2, "seven") // errored
+		c.Count(fmt.Sprintf("list-owns-children|%d", n), true)
+		c.Stat("ctor:list-caller-slice-reused")
+		replay := map[string]any{"children": n, "step": "L(kids...) from clean children, then kids[last] = errored item, then NewDataMessage(list)"}
+		m, err := hsms.NewDataMessage(1, 1, true, 0, [4]byte{}, list)
+		switch {
+		case list.Error() != nil && err == nil:
+			c.Violate("property", "errored-item-accepted-by-message", "a list reporting Error() != nil was accepted by NewDataMessage", replay)
+		case list.Error() == nil && err == nil:
+			if body := hex.EncodeToString(m.ToBytes()[14:]); body != before {
+				c.Violate("property", "errored-item-reaches-wire-under-clean-list", fmt.Sprintf("the caller reused its slice for an errored item after building the list: Error() is nil, NewDataMessage accepted it, and the body is %s (was %s)", body, before), replay)
+			}
 		}
 	}
 	type lc struct {
